@@ -16,9 +16,11 @@ import (
 	"fmt"
 	"io"
 	"math/rand"
+	"net"
 	"os"
 	"path/filepath"
 	"strings"
+	"sync"
 	"time"
 
 	"github.com/trzsz/trzsz-go/trzsz"
@@ -888,6 +890,25 @@ func genCodecE2E(c *ctx) {
 			}
 		}
 	}
+	// a tunnel that is only half established: the client's greeting reaches the server at once, the
+	// server's answer comes back after the client's one-second grace period, so the client gives the
+	// tunnel up and announces tunnel:false while the server holds an accepted connection: the
+	// transfer runs in-band and must be escaped exactly as without any tunnel
+	for _, escape := range []bool{false, true} {
+		wc := &wcase{seed: c.rng.Int63()}
+		wc.cfg = e2eCfg{upload: true, binary: true, escape: escape, compress: "no", timeout: 10, proto: -1,
+			bufsize: "4k", quiet: true, deadline: 40 * time.Second}
+		wc.cfg.connector = func(port int) net.Conn {
+			conn, err := net.DialTimeout("tcp", fmt.Sprintf("127.0.0.1:%d", port), time.Second)
+			if err != nil {
+				return nil
+			}
+			return &codecLateHelloConn{Conn: conn}
+		}
+		wc.sizes = []int{700, 5000}
+		wc.desc = fmt.Sprintf("%s sizes=%v seed=%d half-established tunnel (server greeting 1.3 s late)", describeCfg(wc.cfg), wc.sizes, wc.seed)
+		cases = append(cases, wc)
+	}
 	parallelDo(len(cases), 12, func(i int) {
 		wc := cases[i]
 		rng := rand.New(rand.NewSource(wc.seed))
@@ -956,4 +977,15 @@ func genCodecE2E(c *ctx) {
 			c.violate(wc.key, "binary upload: the client wrote a byte the escape table protects (or the run could not be judged)", wc.desc+" :: "+wc.viol)
 		}
 	}
+}
+
+// codecLateHelloConn delays the first Read (the server's tunnel greeting) beyond the client's grace period.
+type codecLateHelloConn struct {
+	net.Conn
+	once sync.Once
+}
+
+func (c *codecLateHelloConn) Read(p []byte) (int, error) {
+	c.once.Do(func() { time.Sleep(1300 * time.Millisecond) })
+	return c.Conn.Read(p)
 }
